@@ -11,6 +11,11 @@
 //!   C16 check n= pat= count= row= v= loc= proof=  -> true|false
 //!   C16 hcheck n= pat= row= idx= v=     -> true|false
 //!
+//! Values may also be `T|P|A|B<k>.<m>`: node k.m truncated by a byte / padded with a byte / its
+//! first / second half (byte strings that are not digests).  A trailing `via=asset` marks a verdict
+//! obtained end to end: a BMFF stream (ftyp, mdat, C2PA `merkle` uuid boxes) is crafted here and
+//! judged by `BmffHash::verify_stream_hash` (mdat path, `validate_merkle_maps_mdat_boxes`).
+//!
 //! Leaves are identities (`i`, or `i % pat` for pat > 0); identity `k` has the digest
 //! SHA-256("c16:<seed>:<k>").  The implementation's digests are turned into terms by
 //! provenance (checked with SHA-256 here, independently of the tree code): see `name_layers`.
@@ -18,7 +23,7 @@
 use std::collections::HashMap;
 
 use c2pa::{
-    assertions::{MerkleMap, VecByteBuf},
+    assertions::{BmffHash, MerkleMap, VecByteBuf},
     verif_hooks::c16::{C2PAMerkleTree, MerkleNode},
 };
 use serde_bytes::ByteBuf;
@@ -171,6 +176,14 @@ fn coords(t: &TreeInfo, proof: &[Vec<u8>]) -> String {
 enum Val {
     L(usize),
     N(usize, usize),
+    /// node k.m with the last byte removed
+    T(usize, usize),
+    /// node k.m followed by one more byte
+    P(usize, usize),
+    /// first half of node k.m
+    A(usize, usize),
+    /// second half of node k.m
+    B(usize, usize),
 }
 
 impl Val {
@@ -178,6 +191,10 @@ impl Val {
         match self {
             Val::L(i) => format!("L{i}"),
             Val::N(k, m) => format!("N{k}.{m}"),
+            Val::T(k, m) => format!("T{k}.{m}"),
+            Val::P(k, m) => format!("P{k}.{m}"),
+            Val::A(k, m) => format!("A{k}.{m}"),
+            Val::B(k, m) => format!("B{k}.{m}"),
         }
     }
 
@@ -185,8 +202,43 @@ impl Val {
         match self {
             Val::L(i) => w.leaf_digest(*i),
             Val::N(k, m) => t.tree.layers[*k][*m].0.clone(),
+            Val::T(k, m) => {
+                let d = &t.tree.layers[*k][*m].0;
+                d[..d.len() - 1].to_vec()
+            }
+            Val::P(k, m) => {
+                let mut d = t.tree.layers[*k][*m].0.clone();
+                d.push(0x5a);
+                d
+            }
+            Val::A(k, m) => {
+                let d = &t.tree.layers[*k][*m].0;
+                d[..d.len() / 2].to_vec()
+            }
+            Val::B(k, m) => {
+                let d = &t.tree.layers[*k][*m].0;
+                d[d.len() / 2..].to_vec()
+            }
         }
     }
+}
+
+/// The statement's own notion of "the generated proof of leaf `i` against row `k` is empty",
+/// computed from sizes only (independent of the tree code and of the model): on the way up to row
+/// `k` the node never has a sibling.
+fn needs_no_sibling(n: usize, i: usize, k: usize) -> bool {
+    let (mut size, mut idx) = (n, i);
+    for _ in 0..k {
+        if size <= 1 {
+            break;
+        }
+        if idx % 2 == 1 || idx + 1 < size {
+            return false;
+        }
+        idx /= 2;
+        size = size.div_ceil(2);
+    }
+    true
 }
 
 fn vals_s(v: &[Val]) -> String {
@@ -270,6 +322,8 @@ pub fn run(run: &mut Run, rng: &mut Rng) {
                 let row = row_of(&t, rowk);
                 let mut parts = vec![];
                 let mut bad: Vec<String> = vec![];
+                // leaves whose generated proof is empty: producers write `hashes = None` for them
+                let mut wire_none: Vec<usize> = vec![];
                 for i in 0..n {
                     match t.tree.get_proof_by_index(i, depth) {
                         Ok(p) => {
@@ -280,6 +334,9 @@ pub fn run(run: &mut Run, rng: &mut Rng) {
                             parts.push(format!("{}:{}", coords(&t, &p), ok));
                             if n >= 2 && rowk >= 1 {
                                 run.nontrivial(format!("h{n}.{pat}.{depth}.{i}"));
+                            }
+                            if p.is_empty() {
+                                wire_none.push(i);
                             }
                         }
                         Err(_) => {
@@ -294,6 +351,25 @@ pub fn run(run: &mut Run, rng: &mut Rng) {
                 if !bad.is_empty() {
                     all_honest_ok = false;
                     run.fail(idx, "honest-proof-rejected", format!("n={n} pat={pat} max_proof_len={depth} (row {rowk}): generated proof does not verify for {}", bad.join(", ")));
+                }
+                // the wire form of an empty generated proof is `None`, against a row >= 1 too
+                if rowk >= 1 && depth < nl {
+                    for i in wire_none {
+                        let ok = check(n, &row, &t.tree.leaves[i].0, i, &None);
+                        let idx = run.case(
+                            format!("C16 check n={n} pat={pat} count={n} row=R{rowk} v=N0.{i} loc={i} proof=none"),
+                            ok.to_string(),
+                        );
+                        run.count("honest_wire_none_row_ge1");
+                        run.nontrivial(format!("w{n}.{pat}.{rowk}.{i}"));
+                        if !needs_no_sibling(n, i, rowk) {
+                            all_honest_ok = false;
+                            run.fail(idx, "empty-proof-generated-for-paired-leaf", format!("n={n} row {rowk}: get_proof_by_index({i}) is empty although the leaf has a sibling below the row"));
+                        } else if !ok {
+                            all_honest_ok = false;
+                            run.fail(idx, "honest-proof-rejected", format!("n={n} pat={pat} row {rowk}: leaf {i} carried up unpaired, wire proof None not accepted"));
+                        }
+                    }
                 }
             }
             // empty-proof playback against the leaf row (the path used for mdat leaves)
@@ -356,6 +432,69 @@ pub fn run(run: &mut Run, rng: &mut Rng) {
         }
     }
 
+    // 4c. absent proof against every row >= 1: every node of the row offered as the value of the
+    //     first and the last leaf below it. The statement accepts only a leaf that is carried up
+    //     unpaired (its generated proof is empty) -- never an inner node.
+    let mut inner_ok = true;
+    for n in 2..=nmax.min(if run.thorough() { 130 } else { 48 }) {
+        for pat in [0usize, 1] {
+            if pat == 1 && n > 12 {
+                continue;
+            }
+            let t = w.tree(n, pat);
+            let nl = t.tree.layers.len();
+            for k in 1..nl {
+                let row = row_of(&t, k);
+                for m in 0..row.len() {
+                    let first = m << k;
+                    let last = (((m + 1) << k) - 1).min(n - 1);
+                    for loc in if first == last { vec![first] } else { vec![first, last] } {
+                        let got = check(n, &row, &row[m], loc, &None);
+                        let idx = run.case(
+                            format!("C16 check n={n} pat={pat} count={n} row=R{k} v=N{k}.{m} loc={loc} proof=none"),
+                            got.to_string(),
+                        );
+                        run.count("none_proof_row_node_as_leaf");
+                        run.nontrivial(format!("x{n}.{pat}.{k}.{m}.{loc}"));
+                        let expect = row[m] == t.tree.leaves[loc].0 && needs_no_sibling(n, loc, k);
+                        if got != expect {
+                            inner_ok = false;
+                            run.fail(
+                                idx,
+                                if got { "inner-node-accepted-as-leaf" } else { "honest-proof-rejected" },
+                                format!("n={n} row {k}: check_merkle_tree(value = node {m} of the stored row, location {loc}, proof None) returned {got}; the committed leaf {loc} is {}that node", if row[m] == t.tree.leaves[loc].0 { "" } else { "not " }),
+                            );
+                        }
+                    }
+                }
+            }
+        }
+    }
+    run.obligations.insert("absent-proof-never-accepts-an-inner-node".to_string(), inner_ok);
+
+    // 4d. end to end through BmffHash::verify_stream_hash on crafted BMFF streams
+    let nasset = if run.thorough() { 20_000 } else { 2_000 };
+    let mut asset_ok = true;
+    for _ in 0..nasset {
+        let mut r = rng.fork();
+        asset_case(run, &mut r, &mut asset_ok);
+    }
+    run.obligations.insert("asset-level-verdict-follows-the-statement".to_string(), asset_ok);
+
+    // 4e. (not compared, not judged) the documented function-level exception: a value that is not
+    //     an `alg` digest. concat_and_hash has no framing, so value = last 16 bytes of the right leaf
+    //     with the proof element (left leaf || first 16 bytes of the right leaf) is accepted. No call
+    //     site can pass such a value (it is always the output of hash_stream_by_alg / Hasher).
+    {
+        let t = w.tree(2, 0);
+        let (l, rr) = (t.tree.leaves[0].0.clone(), t.tree.leaves[1].0.clone());
+        let mut p = l.clone();
+        p.extend_from_slice(&rr[..16]);
+        let got = check(2, &row_of(&t, 1), &rr[16..], 1, &Some(vec![p]));
+        run.count(if got { "framing_exception_short_value_accepted" } else { "framing_exception_short_value_rejected" });
+        run.notes.push(format!("function-level only: 16-byte value + 48-byte proof element re-splitting l||r at index 1 of a 2-leaf tree: check_merkle_tree = {got} (outside the statement: the value is not a digest; see registry assumptions)"));
+    }
+
     // 5. mutations
     let nmut = if run.thorough() { 250_000 } else { 30_000 };
     for _ in 0..nmut {
@@ -365,6 +504,239 @@ pub fn run(run: &mut Run, rng: &mut Rng) {
 
     run.obligations.insert("every-generated-proof-verifies".to_string(), all_honest_ok);
     run.obligations.insert("layout-equals-generated-layer-sizes".to_string(), layout_ok);
+}
+
+// ---- asset level -------------------------------------------------------------------------------
+
+fn cbor_head(out: &mut Vec<u8>, major: u8, n: u64) {
+    let m = major << 5;
+    if n < 24 {
+        out.push(m | n as u8);
+    } else if n < 0x100 {
+        out.extend_from_slice(&[m | 24, n as u8]);
+    } else if n < 0x1_0000 {
+        out.push(m | 25);
+        out.extend_from_slice(&(n as u16).to_be_bytes());
+    } else {
+        out.push(m | 26);
+        out.extend_from_slice(&(n as u32).to_be_bytes());
+    }
+}
+
+/// CBOR of a `BmffMerkleMap` { uniqueId: 0, localId: 0, location, hashes? } (absent = `None`)
+fn bmff_merkle_map_cbor(location: usize, hashes: &Option<Vec<Vec<u8>>>) -> Vec<u8> {
+    let mut o = vec![];
+    cbor_head(&mut o, 5, if hashes.is_some() { 4 } else { 3 });
+    for (k, v) in [("uniqueId", 0u64), ("localId", 0), ("location", location as u64)] {
+        cbor_head(&mut o, 3, k.len() as u64);
+        o.extend_from_slice(k.as_bytes());
+        cbor_head(&mut o, 0, v);
+    }
+    if let Some(hs) = hashes {
+        cbor_head(&mut o, 3, 6);
+        o.extend_from_slice(b"hashes");
+        cbor_head(&mut o, 4, hs.len() as u64);
+        for h in hs {
+            cbor_head(&mut o, 2, h.len() as u64);
+            o.extend_from_slice(h);
+        }
+    }
+    o
+}
+
+const C2PA_UUID: [u8; 16] = [0xd8, 0xfe, 0xc3, 0xd6, 0x1b, 0x0e, 0x48, 0x3c, 0x92, 0x97, 0x58, 0x28, 0x87, 0x7e, 0xc4, 0x81];
+
+/// ftyp, mdat (8 excluded bytes + the chunks), one C2PA `merkle` uuid box per map entry
+fn build_asset(chunks: &[Vec<u8>], maps: &[(usize, Option<Vec<Vec<u8>>>)]) -> Vec<u8> {
+    let mut f = vec![];
+    f.extend_from_slice(&20u32.to_be_bytes());
+    f.extend_from_slice(b"ftypisom\0\0\0\0isom");
+    let payload: usize = chunks.iter().map(|c| c.len()).sum();
+    f.extend_from_slice(&((8 + 8 + payload) as u32).to_be_bytes());
+    f.extend_from_slice(b"mdat");
+    f.extend_from_slice(b"EXCLUDED");
+    for c in chunks {
+        f.extend_from_slice(c);
+    }
+    for (loc, hashes) in maps {
+        let cbor = bmff_merkle_map_cbor(*loc, hashes);
+        let size = 8 + 16 + 4 + 7 + cbor.len();
+        f.extend_from_slice(&(size as u32).to_be_bytes());
+        f.extend_from_slice(b"uuid");
+        f.extend_from_slice(&C2PA_UUID);
+        f.extend_from_slice(&[0, 0, 0, 0]);
+        f.extend_from_slice(b"merkle\0");
+        f.extend_from_slice(&cbor);
+    }
+    f
+}
+
+fn node_token(tree: &C2PAMerkleTree, d: &[u8]) -> String {
+    for (k, layer) in tree.layers.iter().enumerate() {
+        for (m, node) in layer.iter().enumerate() {
+            if node.0 == d {
+                return format!("N{k}.{m}");
+            }
+        }
+    }
+    "L999999999".to_string()
+}
+
+fn proof_tokens(tree: &C2PAMerkleTree, p: &Option<Vec<Vec<u8>>>) -> String {
+    match p {
+        None => "none".to_string(),
+        Some(p) if p.is_empty() => "-".to_string(),
+        Some(p) => p.iter().map(|d| node_token(tree, d)).collect::<Vec<_>>().join(","),
+    }
+}
+
+/// One crafted BMFF stream judged by `BmffHash::verify_stream_hash`. All chunks but one are
+/// honest, so the verdict of the asset is the verdict of the one altered (or honest) leaf check,
+/// which is what the request line describes.
+fn asset_case(run: &mut Run, r: &mut Rng, all_ok: &mut bool) {
+    let n = r.range(2, 12) as usize;
+    let block = if r.chance(1, 2) { 64 } else { r.range(65, 200) as usize };
+    let mut chunks: Vec<Vec<u8>> = (0..n - 1).map(|_| r.bytes(block)).collect();
+    // a last chunk of 64 bytes is a legal length for every block size used here
+    let last_len = if r.chance(1, 2) { 64 } else { r.range(1, block as u64) as usize };
+    chunks.push(r.bytes(last_len));
+    let leaves: Vec<MerkleNode> = chunks.iter().map(|c| MerkleNode(sha(&[c]))).collect();
+    let tree = C2PAMerkleTree::from_leaves(leaves, "sha256", false);
+    let nl = tree.layers.len();
+    let depth = r.range(0, nl as u64) as usize;
+    let rowk = depth.min(nl - 1);
+    let row: Vec<Vec<u8>> = tree.layers[rowk].iter().map(|x| x.0.clone()).collect();
+    let wire = |i: usize| -> Option<Vec<Vec<u8>>> {
+        let p = tree.get_proof_by_index(i, depth).unwrap_or_default();
+        if p.is_empty() {
+            None
+        } else {
+            Some(p)
+        }
+    };
+    let mut maps: Vec<(usize, Option<Vec<Vec<u8>>>)> = (0..n).map(|i| (i, wire(i))).collect();
+    let i = if block == 64 || r.chance(1, 2) { r.below(n as u64) as usize } else { n - 1 };
+    let with_proof: Vec<usize> = (0..n).filter(|&j| maps[j].1.is_some()).collect();
+
+    let mut kind = "honest";
+    let mut v_tok = format!("N0.{i}");
+    let mut loc = i;
+    let mut proof_tok = proof_tokens(&tree, &maps[i].1);
+    let mut expect = true;
+    match r.below(7) {
+        0 | 1 => {
+            // the chunk is replaced by (left child || right child) of the stored-row node above it;
+            // possible where the chunk may be 64 bytes long: any chunk for block 64, else the last
+            let i2 = if block == 64 { i } else { n - 1 };
+            let (mut lvl, mut idx) = (rowk, i2 >> rowk);
+            let mut lr: Option<Vec<u8>> = None;
+            while lvl > 0 {
+                let below = &tree.layers[lvl - 1];
+                if 2 * idx + 1 < below.len() {
+                    let mut c = below[2 * idx].0.clone();
+                    c.extend_from_slice(&below[2 * idx + 1].0);
+                    lr = Some(c);
+                    break;
+                }
+                idx *= 2;
+                lvl -= 1;
+            }
+            if let Some(c) = lr {
+                kind = "chunk-is-children-of-row-node";
+                chunks[i2] = c;
+                maps[i2] = (i2, None);
+                loc = i2;
+                v_tok = format!("N{rowk}.{}", i2 >> rowk);
+                proof_tok = "none".to_string();
+                expect = false;
+            }
+        }
+        2 => {
+            kind = "chunk-byte-flipped";
+            let pos = r.below(chunks[i].len() as u64) as usize;
+            chunks[i][pos] ^= 1 << r.below(8);
+            v_tok = format!("L{}", 1_000_000 + r.below(1000));
+            expect = false;
+        }
+        3 => {
+            kind = "location-of-another-leaf";
+            let j = (i + 1 + r.below(n as u64 - 1) as usize) % n;
+            maps[i].0 = j;
+            loc = j;
+            expect = false;
+        }
+        4 => {
+            if let Some(&j) = with_proof.first() {
+                kind = "proof-removed";
+                let j = if with_proof.contains(&i) { i } else { j };
+                maps[j].1 = None;
+                loc = j;
+                v_tok = format!("N0.{j}");
+                proof_tok = "none".to_string();
+                expect = false;
+            }
+        }
+        5 => {
+            if let Some(&j) = with_proof.first() {
+                kind = "proof-element-truncated";
+                let j = if with_proof.contains(&i) { i } else { j };
+                let mut p = maps[j].1.clone().unwrap_or_default();
+                let pos = r.below(p.len() as u64) as usize;
+                let mut toks: Vec<String> = p.iter().map(|d| node_token(&tree, d)).collect();
+                toks[pos] = toks[pos].replacen('N', "T", 1);
+                p[pos].pop();
+                maps[j].1 = Some(p);
+                loc = j;
+                v_tok = format!("N0.{j}");
+                proof_tok = toks.join(",");
+                expect = false;
+            }
+        }
+        _ => {}
+    }
+
+    let asset = build_asset(&chunks, &maps);
+    let mut bh = BmffHash::new("jumbf manifest", "sha256", None);
+    bh.set_default_exclusions();
+    bh.set_merkle(vec![MerkleMap {
+        unique_id: 0,
+        local_id: 0,
+        count: n,
+        alg: Some("sha256".to_string()),
+        init_hash: None,
+        hashes: VecByteBuf(row.iter().map(|h| ByteBuf::from(h.clone())).collect()),
+        fixed_block_size: Some(block as u64),
+        variable_block_sizes: None,
+    }]);
+    let verdict = guarded(std::panic::AssertUnwindSafe(|| {
+        let mut cur = std::io::Cursor::new(asset.clone());
+        bh.verify_stream_hash(&mut cur, Some("sha256"))
+    }));
+    let reply = match &verdict {
+        Ok(Ok(())) => "true".to_string(),
+        Ok(Err(c2pa::Error::HashMismatch(_))) => "false".to_string(),
+        Ok(Err(e)) => format!("err:{}", format!("{e:?}").chars().take(60).collect::<String>().replace(' ', "_")),
+        Err(_) => "panic".to_string(),
+    };
+    let idx = run.case(
+        format!("C16 check n={n} pat=0 count={n} row=R{rowk} v={v_tok} loc={loc} proof={proof_tok} via=asset"),
+        reply.clone(),
+    );
+    run.count(&format!("asset_{kind}"));
+    if rowk >= 1 {
+        run.nontrivial(format!("asset {kind} n={n} block={block} row={rowk} loc={loc} {proof_tok}"));
+    }
+    let want = if expect { "true" } else { "false" };
+    if reply != want {
+        *all_ok = false;
+        let class = match (kind, reply.as_str()) {
+            (_, "panic") => "panic",
+            ("chunk-is-children-of-row-node", "true") => "inner-node-accepted-as-leaf",
+            (_, "true") => "altered-asset-accepted",
+            _ => "honest-asset-rejected",
+        };
+        run.fail(idx, class, format!("{kind}: {n} chunks, block size {block}, stored row {rowk}, leaf {loc}: BmffHash::verify_stream_hash says {reply}, the statement requires {want}"));
+    }
 }
 
 fn mutation(run: &mut Run, w: &mut World, r: &mut Rng, nmax: usize, dup_nmax: usize) {
@@ -403,7 +775,50 @@ fn mutation(run: &mut Run, w: &mut World, r: &mut Rng, nmax: usize, dup_nmax: us
     // expected verdict by the property statement, when the statement decides it
     let mut expect: Option<bool> = None;
     let kind;
-    match r.below(13) {
+    match r.below(16) {
+        13 | 14 => {
+            // one consumed proof element replaced by a byte string that is not a digest
+            kind = "proof-elem-bytes";
+            if honest_vals.is_empty() {
+                expect = Some(true);
+            } else {
+                let pos = r.below(honest_vals.len() as u64) as usize;
+                let (k, m) = match honest_vals[pos] {
+                    Val::N(k, m) => (k, m),
+                    _ => (0, 0),
+                };
+                let mut p = honest_vals.clone();
+                match r.below(4) {
+                    0 => p[pos] = Val::T(k, m),
+                    1 => p[pos] = Val::P(k, m),
+                    2 => {
+                        // split in two elements
+                        p[pos] = Val::A(k, m);
+                        p.insert(pos + 1, Val::B(k, m));
+                    }
+                    _ => {
+                        // only the second half is left
+                        p[pos] = Val::B(k, m);
+                    }
+                }
+                proof = Some(p);
+                expect = Some(false);
+            }
+        }
+        15 => {
+            // the value itself is not a digest (plain wrong lengths; no crafted re-splitting)
+            kind = "value-bytes";
+            v = match r.below(4) {
+                0 => Val::T(0, i),
+                1 => Val::P(0, i),
+                2 => Val::A(0, i),
+                _ => Val::B(0, i),
+            };
+            if r.chance(1, 3) {
+                proof = None;
+            }
+            expect = Some(false);
+        }
         0 => {
             kind = "leaf";
             v = random_val(&t, r);
@@ -473,15 +888,17 @@ fn mutation(run: &mut Run, w: &mut World, r: &mut Rng, nmax: usize, dup_nmax: us
         7 => {
             kind = "none-proof";
             proof = None;
-            let k = if r.chance(2, 3) { 0 } else { r.below(nl as u64) as usize };
+            let k = if r.chance(1, 3) { 0 } else { r.below(nl as u64) as usize };
             row_s = format!("R{k}");
             row = row_of(&t, k);
-            if r.chance(1, 2) {
-                v = random_val(&t, r);
+            match r.below(3) {
+                0 => {}
+                1 => v = Val::N(k, i >> k),
+                _ => v = random_val(&t, r),
             }
-            if k == 0 {
-                expect = Some(v.digest(w, &t) == leaf);
-            }
+            // the absent proof is the wire form of the empty proof: accepted iff the value is the
+            // committed leaf and that leaf is carried up unpaired to row k
+            expect = Some(v.digest(w, &t) == leaf && needs_no_sibling(n, i, k));
         }
         8 => {
             kind = "count";
